@@ -11,3 +11,6 @@ CHECKS["C04"] = ("property-based differential testing of generated command histo
 CHECKS["C05"] = ("metamorphic property-based testing (same generated script under K generated option vectors and logic embeddings)",
                  "Generated scripts are each run under several generated configurations and wider logics; any sat/unsat contradiction is a violation. Exploration only.",
                  "no external oracle needed for the alarm; references only attribute blame in the report", "DESIGN.md §4 C05")
+CHECKS["C03"] = ("property-based testing with an independent model validator (printed definitions substituted for declarations, evaluated by z3, re-checked by cvc5)",
+                 "Generated sat-leaning scripts in all model-supporting logics; every get-model / get-value / get-assignment output after sat is validated against the active assertions. Exploration only.",
+                 REF, "DESIGN.md §4 C03")
